@@ -66,14 +66,83 @@ def rule_points(ctx):
         ctx.floor('K4', 'keep paths', n_keep, 2)
         for s in c.calls('store::StoredPoint::retain'):
             ctx.check(arg_desc(s, 1).endswith('.started'), 'K4', 'cleanup_points:retain-arg', 'retain(run start time)', 'retain(%s)' % arg_desc(s, 1))
+    rule_retain(ctx)
+
+
+def rule_retain(ctx):
+    """StoredPoint::retain: a point that holds a manifest is kept exactly while the manifest's certificate has not
+    expired - nothing else (update status, time of the run) may decide for such a point. Shared with C05: the stored
+    manifest is the reference the rollback check compares against."""
     r = ctx.body('store::StoredPoint::retain')
+    n = 0
     for p in enumerate_paths(r, ctx.facts):
+        if p.kind != 'return':
+            continue
         cm = p.cond_map()
         m = [labs for v, labs in cm.items() if v.endswith('self.manifest)') or v == 'call:Option::as_ref(self.manifest)' or 'self.manifest' in v and not v.startswith('cmp(')]
+        expiry = bool(re.search(r'not_after', p.outcome)) and 'Time::now' in p.outcome and (p.outcome.startswith('Gt(') or 'PartialOrd>::gt' in p.outcome or 'gt(' in p.outcome)
         if m and m[0] == {'Some'}:
-            ok = bool(re.search(r'not_after', p.outcome)) and 'Time::now' in p.outcome and (p.outcome.startswith('Gt(') or 'PartialOrd>::gt' in p.outcome or 'gt(' in p.outcome)
-            ctx.check(ok, 'K4', 'StoredPoint::retain:manifest=>not_after>now', 'a stored point is retained while its manifest certificate has not expired',
+            n += 1
+            ctx.check(expiry, 'K4', 'StoredPoint::retain:manifest=>not_after>now', 'a stored point is retained while its manifest certificate has not expired',
                       'retain() for a point with a manifest is `%s`' % p.outcome)
+            other = sorted(v for v in cm if 'self.manifest' not in v and 'not_after' not in v)
+            ctx.check(not other, 'K4', 'StoredPoint::retain:manifest=>nothing-else-decides', 'only the expiry decides for a point with a manifest',
+                      'retain() for a point with a manifest also depends on %s' % other)
+        elif not expiry and not (m and m[0] == {'None'}):
+            ctx.bad('K4', 'StoredPoint::retain:verdict-without-manifest-test',
+                    'retain() returns `%s` on a path that has not established that the point has no manifest (conditions: %s): '
+                    'a point with an unexpired manifest may be dropped' % (p.outcome, sorted(cm)))
+    ctx.floor('K4', 'retain paths with a manifest', n, 1)
+
+
+def _expiry(cm):
+    """-> 'valid' | 'expired' | None from a comparison of the certificate's notAfter with now"""
+    for v, labs in cm.items():
+        m = re.match(r'^cmp\((.*)\)$', v)
+        if not m or 'not_after' not in v or 'Time::now' not in v:
+            continue
+        now_first = v.index('Time::now') < v.index('not_after')
+        valid = {'Less'} if now_first else {'Greater'}
+        if set(labs) == valid:
+            return 'valid'
+        if not (set(labs) & valid):
+            return 'expired'
+        return 'mixed'
+    return None
+
+
+def rule_ta_cleanup(ctx):
+    """store::Run::cleanup_ta: a stored trust-anchor certificate is deleted only if it does not decode or has expired;
+    a decodable, unexpired copy is kept (it is what a later run falls back to when the download fails: shared with C10)."""
+    b = ctx.body('store::Run::cleanup_ta')
+    cls = [c for c in ctx.closures(b) if c.calls('re:Cert::decode$')]
+    ctx.floor('K4', 'keep closure of cleanup_ta', len(cls), 1)
+    for c in cls:
+        ctx.bodies.add(c.nid)
+        n_keep = n_del = 0
+        for p in enumerate_paths(c, ctx.facts):
+            if p.kind != 'return':
+                continue
+            cm = p.cond_map()
+            dec = [sorted(l) for v, l in cm.items() if v.startswith('call:Cert::decode')]
+            exp = _expiry(cm)
+            if p.outcome == 'Result::Ok(const(0))':
+                n_del += 1
+                why = (dec and dec[0] == ['Err']) or exp == 'expired'
+                ctx.check(bool(why), 'K4', 'cleanup_ta:delete=>undecodable-or-expired', 'a TA copy is deleted only when undecodable or expired',
+                          'a stored TA certificate is deleted on a path that established neither a decode failure nor expiry (conditions: %s)' % sorted(cm))
+            elif p.outcome == 'Result::Ok(const(1))':
+                n_keep += 1
+                ctx.check(dec and dec[0] == ['Ok'] and exp == 'valid', 'K4', 'cleanup_ta:keep=>decodable&unexpired', 'kept copies decode and have not expired',
+                          'a stored TA certificate is kept although decode=%s expiry=%s' % (dec, exp))
+            elif not (p.outcome or '').endswith('@Break.0'):
+                ctx.bad('K4', 'cleanup_ta:outcome', 'unexpected outcome of the keep closure: %s' % p.outcome)
+            other = sorted(v for v, l in cm.items() if not v.startswith('call:Cert::decode') and 'not_after' not in v and not v.startswith('call:fatal::read_file')
+                           and p.outcome.startswith('Result::Ok'))
+            ctx.check(not other, 'K4', 'cleanup_ta:nothing-else-decides', 'only decodability and expiry decide',
+                      'the fate of a stored TA certificate also depends on %s' % other)
+        ctx.floor('K4', 'cleanup_ta keep paths', n_keep, 1)
+        ctx.floor('K4', 'cleanup_ta delete paths', n_del, 2)
 
 
 def rule_dir_tree(ctx):
@@ -174,4 +243,4 @@ def rule_retain_keys_canonical(ctx):
               'not found and its module directory is deleted' % [x[0].nid for x in raw], loc=raw[0][1].loc() if raw else None)
 
 
-RULES = [rule_retain_keys_canonical, rule_gates, rule_points, rule_dir_tree, rule_collectors]
+RULES = [rule_retain_keys_canonical, rule_gates, rule_points, rule_ta_cleanup, rule_dir_tree, rule_collectors]
